@@ -5,6 +5,7 @@ from /repo's C++ by cpp2lean on every run and proved equal to the model (tie the
 -/
 import AdaptaVerif.Lemmas.GeometryBridge
 import AdaptaVerif.Lemmas.GeometrySpec
+import AdaptaVerif.Lemmas.InPolyBridge
 namespace AdaptaVerif.Props.C16
 open AdaptaVerif.Model.Geometry AdaptaVerif.Lemmas
 open AdaptaVerif.Lemmas.GeometryBridge
@@ -36,6 +37,13 @@ theorem gen_kernels_assertions_hold :
   ⟨GeometryBridge.vecDir_pre_of_nonneg, GeometryBridge.segmentIntersect_pre_true,
    GeometryBridge.pointOnLine_pre_zero, GeometryBridge.colinear_pre_of_nonneg,
    GeometryBridge.inValidRegion_pre_true, GeometryBridge.cornerSide_pre_true⟩
+
+/-- the loop kernel `inPoly` generated from the C++ (indexed `for` loop with early return) is the
+    list-based model, and all its vector accesses are in bounds -/
+theorem gen_inPoly_is_model (poly : List Pt) (q : Pt) (cb : Bool) :
+    AdaptaVerif.Gen.Geometry.inPoly poly q cb = inPoly poly q cb ∧
+    AdaptaVerif.Gen.Geometry.inPoly_pre poly q cb = true :=
+  ⟨InPolyBridge.inPoly_eq poly q cb, InPolyBridge.inPoly_pre_true poly q cb⟩
 
 /-! ## Orientation -/
 
